@@ -403,7 +403,8 @@ def apply_partition_fault(parts, kind, site, size):
             return with_part(r, pid, name_to_send_nodes=m), \
                 f"rank {r} part {pid}: {n2} also sent to ({sd.dest_rank}, {sd.comm_tag!r})"
         if kind == "dup_send_other_dtype":
-            other = np.float32 if sd.data.dtype != np.float32 else np.float64
+            other = (np.complex64 if sd.data.dtype.kind == "c" else
+                     np.float32 if sd.data.dtype != np.float32 else np.float64)
             m[name].append(sd.copy(data=sd.data.astype(other)))
             return with_part(r, pid, name_to_send_nodes=m), \
                 f"rank {r} part {pid}: second send of {name} as {np.dtype(other)}"
